@@ -287,6 +287,32 @@ PROPS["C20"] = dict(
                 "status/header capture, ASGI CachedStream, decorator/middleware stacks.",
 )
 
+PROPS["C16"] = dict(
+    modules=["common", "hdrs", "c03", "c02", "c05", "c13", "c16"],
+    contracts=["cookie.table", "Cookie._quote", "Cookie.__str__", "set_cookie", "delete_cookie", "request.cookies"],
+    no_refute=["cookie.table"],
+    refute={"quick": [2], "thorough": [1, 2, 3]},
+    native="c16",
+    level="proof",
+    trusted=["A-py-1", "A-solver", "A-pyvc"],
+    level_text="Writer: the real escape table maps every code point 0..255 to ASCII text that is the character itself or exactly "
+               "the escape http.cookies._unquote inverts (exhaustive finite lemma); _quote returns the value unchanged or "
+               "'\"' + homomorphic image + '\"', without ';'; __str__ puts quote(name)=quote(value) first, ';'-free, max-age=<n> "
+               "iff n > -1. Reader: the request-side parser stores, for every non-empty chunk of the Cookie header, "
+               "strip(name) -> _unquote(strip(value)) with a later duplicate winning (loop invariant over any number of "
+               "chunks). Attributes: set_cookie(expires=e) builds the cookie with Expires == UTC broken-down time of now+e "
+               "(independent of the process time zone), delete_cookie sets expires=0 and max-age=0. The round trip itself "
+               "composes writer and reader through A-cookie-1 / A-split and is additionally run on all values of length <= 1 "
+               "and 3000+ longer ones (bounded).",
+    level_note="Trusted: http.cookies._unquote inverts the octal / backslash escapes inside a quoted string and is the identity "
+               "otherwise (A-cookie-1); str.translate is the character-wise homomorphism of the table (A-translate); "
+               "header.split(';') returns the ';'-free pieces (A-split); fromtimestamp(t, tz=utc) is UTC broken-down time and "
+               "strftime prints the fields (A-time-1; %a/%b assume the C locale); re fullmatch (A-re-2). A-cookie-1 and "
+               "A-split are validated by the bounded round-trip run on every check.",
+    technique="deductive verification: finite table lemma, string contracts for quoting/serialisation, loop invariant for the cookie parser, time-zone contract with uninterpreted local/UTC conversions, SMT",
+    explanation="",
+)
+
 NOT_APPLICABLE = {
     "C06": "quantifies over schedules/interleavings (relay thread vs consumer vs closer, asyncio tasks vs ping timer) and is a "
            "bounded-liveness claim; contracts over a sequential, await-erased semantics cannot express an interleaving and "
